@@ -88,11 +88,39 @@ func c04IsBlock(k string) bool {
 
 // ---------------------------------------------------------------- wire encoding
 
+// strings are emitted as "$<hex runes>" and then pooled by c04Pool ("#<index>")
+func c04S(x string) string { return "$" + vh.HexRunes(x) }
+
 func c04EncStrs(b *[]string, xs []string) {
 	*b = append(*b, strconv.Itoa(len(xs)))
 	for _, x := range xs {
-		*b = append(*b, vh.HexRunes(x))
+		*b = append(*b, c04S(x))
 	}
+}
+
+// c04Pool replaces the string tokens of an op by references into a pool that is put after the depth:
+// C04 case <depth> P <n> <hex>... <rest with #i>
+func c04Pool(toks []string) []string {
+	idx := map[string]int{}
+	var pool []string
+	out := make([]string, 0, len(toks))
+	for _, t := range toks {
+		if strings.HasPrefix(t, "$") {
+			i, ok := idx[t]
+			if !ok {
+				i = len(pool)
+				idx[t] = i
+				pool = append(pool, t[1:])
+			}
+			out = append(out, "#"+strconv.Itoa(i))
+		} else {
+			out = append(out, t)
+		}
+	}
+	res := append([]string{}, out[:3]...)
+	res = append(res, "P", strconv.Itoa(len(pool)))
+	res = append(res, pool...)
+	return append(res, out[3:]...)
 }
 
 func c04EncNodes(b *[]string, ns []*c04Node) {
@@ -140,7 +168,7 @@ func c04EncNode(b *[]string, n *c04Node) {
 			}
 			*b = append(*b, strconv.Itoa(len(m.entries)))
 			for _, e := range m.entries {
-				*b = append(*b, vh.HexRunes(e.k))
+				*b = append(*b, c04S(e.k))
 				c04EncStrs(b, e.vals)
 			}
 		}
@@ -176,15 +204,32 @@ func c04Encode(c *c04Case) []string {
 		} else {
 			b = append(b, "E")
 		}
-		b = append(b, vh.HexRunes(e.from))
+		b = append(b, c04S(e.from))
 		c04EncStrs(&b, e.rcpts)
 	}
 	return b
 }
 
 type c04Reader struct {
-	t []string
-	i int
+	t    []string
+	i    int
+	pool []string
+}
+
+// a string token: "#<pool index>", "$<hex runes>" or bare hex runes
+func (r *c04Reader) str() string {
+	t := r.next()
+	switch {
+	case strings.HasPrefix(t, "#"):
+		i, err := strconv.Atoi(t[1:])
+		if err != nil || i < 0 || i >= len(r.pool) {
+			panic("c04: bad pool reference " + t)
+		}
+		return r.pool[i]
+	case strings.HasPrefix(t, "$"):
+		return vh.UnhexRunes(t[1:])
+	}
+	return vh.UnhexRunes(t)
 }
 
 func (r *c04Reader) next() string {
@@ -205,7 +250,7 @@ func (r *c04Reader) strs() []string {
 	n := r.num()
 	var out []string
 	for i := 0; i < n; i++ {
-		out = append(out, vh.UnhexRunes(r.next()))
+		out = append(out, r.str())
 	}
 	return out
 }
@@ -246,7 +291,7 @@ func (r *c04Reader) node() *c04Node {
 			m := c04Mod{sender: r.next() == "S"}
 			ne := r.num()
 			for j := 0; j < ne; j++ {
-				e := c04Entry{k: vh.UnhexRunes(r.next())}
+				e := c04Entry{k: r.str()}
 				e.vals = r.strs()
 				m.entries = append(m.entries, e)
 			}
@@ -280,6 +325,13 @@ func c04Decode(op string) *c04Case {
 		panic("c04: not a case op")
 	}
 	c := &c04Case{depth: r.num()}
+	if r.i < len(r.t) && r.t[r.i] == "P" {
+		r.next()
+		n := r.num()
+		for i := 0; i < n; i++ {
+			r.pool = append(r.pool, vh.UnhexRunes(r.next()))
+		}
+	}
 	c.root = r.nodes()
 	if r.next() != "|" {
 		panic("c04: '|' expected")
@@ -287,7 +339,7 @@ func c04Decode(op string) *c04Case {
 	ne := r.num()
 	for i := 0; i < ne; i++ {
 		e := c04Env{variant: r.next() == "V"}
-		e.from = vh.UnhexRunes(r.next())
+		e.from = r.str()
 		e.rcpts = r.strs()
 		c.envs = append(c.envs, e)
 	}
@@ -663,8 +715,14 @@ func c04RuleMatches(rules []string, k string) bool {
 // the whole normalised address is looked up first, then the local part alone; values without a
 // domain get the domain of the original address.
 func c04Replace(m c04Mod, a string) ([]string, bool) {
+	stat := func(what string) {
+		if c04PickStat != nil {
+			c04PickStat("rewrite." + what)
+		}
+	}
 	k, ok := c04Key(a)
 	if !ok {
+		stat("malformed")
 		return nil, false
 	}
 	find := func(key string) []string {
@@ -678,27 +736,34 @@ func c04Replace(m c04Mod, a string) ([]string, bool) {
 	if vals := find(k); len(vals) > 0 {
 		for _, v := range vals {
 			if !address.Valid(v) {
+				stat("full-address.invalid-value")
 				return nil, false
 			}
 		}
+		stat(fmt.Sprintf("full-address.to%d", min(len(vals), 3)))
 		return vals, true
 	}
 	mbox, dom, err := address.Split(k)
 	if err != nil {
+		stat("unsplittable-unchanged")
 		return []string{a}, true
 	}
 	vals := find(mbox)
 	if len(vals) == 0 {
+		stat("unchanged")
 		return []string{a}, true
 	}
 	var out []string
 	for _, v := range vals {
 		if strings.Contains(v, "@") && !strings.HasPrefix(v, `"`) && !strings.HasSuffix(v, `"`) {
 			if !address.Valid(v) {
+				stat("local-part.invalid-value")
 				return nil, false
 			}
+			stat("local-part.value-with-domain")
 			out = append(out, v)
 		} else {
+			stat("local-part.value-gets-domain")
 			out = append(out, v+"@"+dom)
 		}
 	}
@@ -748,37 +813,61 @@ func c04RwRcpt(ms []c04Mod, as []string) ([]string, bool) {
 }
 
 // the block of a level that handles key k: (children of the block, ok); tblKind/ruleKind/dfltKind name
-// the level's three block directives.
+// the level's three block directives.  c04PickStat (when set) is told which rule of the precedence fired.
+var c04PickStat func(string)
+
 func c04Pick(ns []*c04Node, tblKind, ruleKind, dfltKind string, k string, nullSenderOK bool) ([]*c04Node, bool) {
+	stat := func(what string) {
+		if c04PickStat != nil {
+			c04PickStat("sel." + ruleKind + "." + what)
+		}
+	}
 	for _, n := range ns { // 1. tables, in declaration order
 		if n.kind == tblKind && n.ok {
 			for _, key := range n.keys {
 				if key == k {
+					stat("table")
 					return n.ch, true
 				}
 			}
 		}
 	}
-	for _, n := range ns { // 2. full-address rules, first declaration wins
-		if n.kind == ruleKind && c04RuleMatches(n.rules, k) {
-			return n.ch, true
+	first := func(key string) *c04Node {
+		var hit *c04Node
+		hits := 0
+		for _, n := range ns {
+			if n.kind == ruleKind && c04RuleMatches(n.rules, key) {
+				if hit == nil {
+					hit = n
+				}
+				hits++
+			}
 		}
+		if hits > 1 {
+			stat("overlap-first-wins")
+		}
+		return hit
+	}
+	if n := first(k); n != nil { // 2. full-address rules, first declaration wins
+		stat("address-rule")
+		return n.ch, true
 	}
 	_, dom, err := address.Split(k)
 	if err != nil {
 		if !(nullSenderOK && k == "") {
+			stat("unsplittable")
 			return nil, false
 		}
 		dom = ""
 	}
-	for _, n := range ns { // 3. domain rules
-		if n.kind == ruleKind && c04RuleMatches(n.rules, dom) {
-			return n.ch, true
-		}
+	if n := first(dom); n != nil { // 3. domain rules
+		stat("domain-rule")
+		return n.ch, true
 	}
 	for _, n := range ns { // 4. default block ...
 		if n.kind == dfltKind {
 			if len(n.ch) > 0 {
+				stat("default-block")
 				return n.ch, true
 			}
 			break
@@ -792,6 +881,7 @@ func c04Pick(ns []*c04Node, tblKind, ruleKind, dfltKind string, k string, nullSe
 			rest = append(rest, n)
 		}
 	}
+	stat("default-implied")
 	return rest, true
 }
 
@@ -951,26 +1041,26 @@ func c04NormTokens(c *c04Case) []string {
 	var b []string
 	for _, a := range c04Sorted(n.key) {
 		if k, ok := c04Key(a); ok {
-			b = append(b, "k", vh.HexRunes(a), vh.HexRunes(k))
+			b = append(b, "k", c04S(a), c04S(k))
 		} else {
-			b = append(b, "k", vh.HexRunes(a), "!")
+			b = append(b, "k", c04S(a), "!")
 		}
 	}
 	for _, a := range c04Sorted(n.dkey) {
 		if k, err := dns.ForLookup(a); err == nil {
-			b = append(b, "d", vh.HexRunes(a), vh.HexRunes(k))
+			b = append(b, "d", c04S(a), c04S(k))
 		} else {
-			b = append(b, "d", vh.HexRunes(a), "!")
+			b = append(b, "d", c04S(a), "!")
 		}
 	}
 	for _, a := range c04Sorted(n.vrule) {
 		if validMatchRule(a) {
-			b = append(b, "v", vh.HexRunes(a))
+			b = append(b, "v", c04S(a))
 		}
 	}
 	for _, a := range c04Sorted(n.vaddr) {
 		if address.Valid(a) {
-			b = append(b, "a", vh.HexRunes(a))
+			b = append(b, "a", c04S(a))
 		}
 	}
 	return b
@@ -1006,7 +1096,7 @@ func c04RunCase(t *testing.T, out *vh.Out, c *c04Case) {
 	toks := c04Encode(c)
 	toks = append(toks, "|")
 	toks = append(toks, c04NormTokens(c)...)
-	op := strings.Join(toks, " ")
+	op := strings.Join(c04Pool(toks), " ")
 
 	var text strings.Builder
 	var tbls []*c04TableMod
@@ -1029,6 +1119,8 @@ func c04RunCase(t *testing.T, out *vh.Out, c *c04Case) {
 	}
 	out.Stat("load.ok")
 	out.Stat(fmt.Sprintf("load.ok.depth%d", c04Depth(c.root)))
+	c04PickStat = out.Stat
+	defer func() { c04PickStat = nil }()
 
 	// T3: every loaded block carries a decision
 	incomplete := 0
@@ -1221,12 +1313,14 @@ func (g *c04Gen) modNode(level int) *c04Node {
 		seen := map[string]bool{}
 		for j := 0; j < ne; j++ {
 			var k string
+			bare := 6 // % of values without a domain
 			switch {
 			case g.r.Chance(45):
 				k = g.keyOf(g.addr())
 			case g.r.Chance(75):
 				k, _ = c04Key(c04Locals[g.r.Intn(len(c04Locals))][0] + "@x")
 				k = strings.TrimSuffix(k, "@x")
+				bare = 45
 			case g.r.Chance(30):
 				k = "postmaster"
 			default:
@@ -1245,7 +1339,7 @@ func (g *c04Gen) modNode(level int) *c04Node {
 				switch {
 				case g.r.Intn(1000) < 25:
 					e.vals = append(e.vals, g.r.Pick("a@b@example.org", "alice@a..b", "@example.org"))
-				case g.r.Chance(25):
+				case g.r.Chance(bare):
 					e.vals = append(e.vals, g.r.Pick("carol", "bob", "Dave", "\u00e9"))
 				case g.r.Chance(4):
 					e.vals = append(e.vals, "postmaster")
@@ -1355,9 +1449,9 @@ func (g *c04Gen) level(level, depth int) []*c04Node {
 	if g.r.Chance(map[int]int{0: 30, 1: 22}[level]) {
 		out = append(out, g.modNode(level))
 	}
-	flatPct := 35
+	flatPct := 28
 	if level == 0 {
-		flatPct = 30
+		flatPct = 22
 	}
 	tbl := func() *c04Node {
 		if g.hit(g.defect) {
@@ -1467,7 +1561,7 @@ func (g *c04Gen) respell(a string) string {
 func (g *c04Gen) gen() *c04Case {
 	depth := 0
 	switch x := g.r.Intn(100); {
-	case x < 35:
+	case x < 30:
 		depth = 1
 	case x < 50:
 		depth = 2
@@ -1527,11 +1621,15 @@ func TestVerifC04Routing(t *testing.T) {
 	n := vh.N(1500)
 	rng := vh.NewRng(vh.Seed() + 4)
 	for i := 0; i < n; i++ {
-		g := &c04Gen{r: rng.Fork(), defect: 4}
+		g := &c04Gen{r: rng.Fork()}
 		switch i % 10 {
-		case 0:
+		case 0, 1, 2:
 			g.defect = 0 // only well-formed configurations
-		case 1:
+		case 3, 4, 5, 6:
+			g.defect = 2
+		case 7, 8:
+			g.defect = 8
+		default:
 			g.defect = 40 // mostly refused ones
 		}
 		c04RunCase(t, out, c04Decode(strings.Join(c04Encode(g.gen()), " ")))
